@@ -483,6 +483,30 @@ func c14(tier string, args []string) int {
 				sweep = append(sweep, prog)
 			}
 		}
+		// leftovers outside the polling window: a time-controlled search that is over (by itself, by ponderhit + its timer,
+		// or by stop), any other lifecycle call, an idle well beyond one polling period, then an infinite search that is left
+		// running for 60 ms: nothing of the earlier search may end it
+		for _, id := range []string{"Idle(10ms)"} {
+			found := false
+			for _, o := range lcOps {
+				found = found || o.name == id
+			}
+			if !found {
+				lcOps = append(lcOps, lcOp{name: id, idle: 10 * time.Millisecond, extra: true})
+			}
+		}
+		for _, first := range [][]int{{opIdx("Start(B,movetime 65ms)")}, {opIdx("Start(C,ponder,wtime 300ms)"), opIdx("PonderHit")}, {opIdx("Start(C,ponder,wtime 300ms)"), opIdx("Stop")}} {
+			for _, mid := range []string{"", "NewGame", "ClearHash", "IsReady", "Stop"} {
+				for _, id := range []string{"Idle(10ms)", "Idle(20ms)"} {
+					prog := append([]int{}, first...)
+					if mid != "" {
+						prog = append(prog, opIdx(mid))
+					}
+					prog = append(prog, opIdx(id), opIdx("Start(A,infinite)"))
+					sweep = append(sweep, prog)
+				}
+			}
+		}
 		done := 0
 		for pi, prog := range sweep {
 			if pi%n != shard || run.Expired() {
@@ -624,6 +648,13 @@ func c14DeepStop(run *vl.Run, tier string, shard, n int) int64 {
 // and one later. The corresponding ops are appended to lcOps (marked extra) if they are not there yet; bin/replay calls
 // this too, so that the op indices of a recorded sweep program resolve.
 func lcSweepIdles() ([]string, time.Duration) {
+	has10 := false
+	for _, o := range lcOps {
+		has10 = has10 || o.name == "Idle(10ms)"
+	}
+	if !has10 {
+		lcOps = append(lcOps, lcOp{name: "Idle(10ms)", idle: 10 * time.Millisecond, extra: true})
+	}
 	pc, _ := position.NewPositionFen(lcFens["C"])
 	budget := search.NewSearch().VerifTimeBudget(pc, &search.Limits{Ponder: true, TimeControl: true, WhiteTime: 300 * time.Millisecond, BlackTime: 300 * time.Millisecond, Depth: 1})
 	fire := ((budget + 5*time.Millisecond - 1) / (5 * time.Millisecond)) * 5 * time.Millisecond
